@@ -82,8 +82,9 @@ def mixkey(w, mix):
     return w + "|" + json.dumps([m for m in mix])
 
 
-def model(ctx, g, plan, devs):
-    """Run M({}) and M(K) over the plan; returns the export, the vectors (with alt outcomes) and M(K)'s racing pairs."""
+def model(ctx, g, plan, devs, kplan=None, ktriple=TRIPLE):
+    """Run M({}) over the plan and M(K) over kplan (default: the same); returns the export, the vectors (with the
+    outcomes M(K) allows besides S's) and M(K)'s racing pairs.  A mix M(K) was not run on gets no alternative."""
     a = vlib.run_tlc(ctx, "MCLazyBind", cfg(g, [], plan, INV_STRICT), timeout=1500)
     vlib.require_clean(a, "LazyBind Dev={} %s G=%d" % (plan, g))
     exp = (a.mark("@@UNI") or [None])[0]
@@ -100,7 +101,7 @@ def model(ctx, g, plan, devs):
             raise vlib.MachineryError("M({}) produced outcomes %s that S does not prescribe for %s" % (o["out"], o["mix"]))
     races = []
     if devs:
-        b = vlib.run_tlc(ctx, "MCLazyBind", cfg(g, sorted(devs), plan, INV_K), timeout=1500)
+        b = vlib.run_tlc(ctx, "MCLazyBind", cfg(g, sorted(devs), kplan or plan, INV_K, triple=ktriple), timeout=1500)
         vlib.require_clean(b, "LazyBind Dev=K %s G=%d" % (plan, g))
         alts = {}
         for o in b.mark("@@OUT"):
@@ -133,10 +134,23 @@ def model(ctx, g, plan, devs):
 # ------------------------------------------------------------ race reports ----
 
 _acc_re = re.compile(r"^(Previous )?(read|write|atomic read|atomic write) at 0x[0-9a-f]+ by (main )?goroutine", re.I)
+_src_cache = {}
+
+
+def _srcline(path, line):
+    if path not in _src_cache:
+        try:
+            _src_cache[path] = open(path, errors="replace").read().splitlines()
+        except OSError:
+            _src_cache[path] = None
+    lines = _src_cache[path]
+    if lines is None or not (0 < line <= len(lines)):
+        return None
+    return lines[line - 1].strip()
 
 
 def parse_race_log(text):
-    """-> list of reports: {"accs": [(kind, fn) x2], "text": ...}; fn = top frame inside ggql ('' if none)."""
+    """-> list of reports {"accs": [(kind, fn, source line) x2], "text": ...}; fn = top frame inside ggql ('' if none)."""
     reports = []
     for block in text.split("=================="):
         if "WARNING: DATA RACE" not in block:
@@ -148,7 +162,7 @@ def parse_race_log(text):
             m = _acc_re.match(lines[i].strip())
             if m:
                 kind = "W" if "write" in m.group(2).lower() else "R"
-                fn = ""
+                fn, src = "", None
                 j = i + 1
                 while j < len(lines) and lines[j].strip():
                     fr = lines[j].strip()
@@ -156,13 +170,24 @@ def parse_race_log(text):
                         fn = fr[len("github.com/uhn/ggql/pkg/ggql."):]
                         fn = re.sub(r"\(\)$", "", fn)
                         fn = re.sub(r"\.func\d+.*$", "", fn)
+                        if j + 1 < len(lines):
+                            pm = re.match(r"\s*(\S+\.go):(\d+)", lines[j + 1])
+                            if pm:
+                                src = _srcline(pm.group(1), int(pm.group(2)))
                     j += 1
-                accs.append((kind, fn))
+                accs.append((kind, fn, src))
                 i = j
             else:
                 i += 1
         reports.append({"accs": accs[:2], "text": block.strip()[:6000]})
     return reports
+
+
+def _is_label(acc, lc):
+    kind, fn, src = acc
+    if kind != lc["k"] or fn != lc["fn"]:
+        return False
+    return src is None or any(frag in src for frag in lc["src"])   # source unavailable: function level
 
 
 def absorb_races(ctx, logprefix, rep, label, exp, races, devs):
@@ -179,20 +204,20 @@ def absorb_races(ctx, logprefix, rep, label, exp, races, devs):
     if rep["_rc"] == 66 and not reports:
         raise vlib.MachineryError("%s: the race detector signalled races (exit 66) but no report was captured" % label)
     labels = exp["labels"]
-    known_pairs = {}
-    for r in races:
-        a, b = labels[r["a"]], labels[r["b"]]
-        dev = a["dev"] or b["dev"]
-        known_pairs[frozenset([(a["k"], a["fn"]), (b["k"], b["fn"])])] = dev
     n = ctx.extra.setdefault("race_reports", {})
     for r in reports:
         accs = r["accs"]
-        if len(accs) < 2 or not any(fn for _, fn in accs):
+        if len(accs) < 2 or not any(fn for _, fn, _ in accs):
             raise vlib.MachineryError("%s: data race outside ggql (the harness itself is racy?):\n%s" % (label, r["text"][:3000]))
-        key = frozenset(accs)
-        name = " x ".join("%s %s" % (k, fn or "(caller)") for k, fn in sorted(accs))
+        x, y = accs
+        name = " x ".join("%s %s [%s]" % (k, fn or "(caller)", src or "?") for k, fn, src in sorted(accs, key=lambda a: (a[0], a[1], a[2] or "")))
         n[name] = n.get(name, 0) + 1
-        dev = known_pairs.get(key)
+        dev = None
+        for kr in races:
+            a, b = labels[kr["a"]], labels[kr["b"]]
+            if (_is_label(x, a) and _is_label(y, b)) or (_is_label(x, b) and _is_label(y, a)):
+                dev = a["dev"] or b["dev"]
+                break
         if dev and dev in devs:
             hit = "%s: %s" % (dev, devs[dev]["what"])
             ctx.known_hits[hit] = ctx.known_hits.get(hit, 0) + 1
@@ -296,6 +321,8 @@ def trace_validation(ctx, exp, vecs, devs, up, label="trace"):
                 hit = "%s: %s" % (n, devs[n]["what"])
                 ctx.known_hits[hit] = ctx.known_hits.get(hit, 0) + 1
             continue
+        if k:
+            v = k
         ctx.violations.append({"from": label, "what": "recorded access log is not a behaviour of LazyBind.tla: " + v["why"],
                                "case": {"world": t[0]["w"], "requests": t[0]["reqs"], "record": v["at"],
                                         "log": t[max(0, v["at"] - recs.index(t[0]) - 6): v["at"] - recs.index(t[0]) + 2]}})
@@ -371,7 +398,16 @@ def run(ctx):
     quick = ctx.tier == "quick"
     devs = known_devs()
     # (1) the model
-    exp, uexec, vecs, races = model(ctx, 2, "QuickPlan" if quick else "PairPlan", devs)
+    # quick: M(K) only over the mixes containing a request with more than one prescribed response (the only ones whose
+    # outcome a deviation can change; the thorough tier runs M(K) over everything and OutcomeKnown confirms it)
+    multi = ["stray", "anydog"]
+    if quick:
+        exp, uexec, vecs, races = model(ctx, 2, "QuickPlan", devs, kplan="KQuickPlan", ktriple=multi)
+    else:
+        exp, uexec, vecs, races = model(ctx, 2, "PairPlan", devs)
+    for n, r in exp["uni"]["reqs"].items():
+        if (len(r["resp"]) > 1) != (n in multi):
+            raise vlib.MachineryError("request %s: the list of requests with several prescribed responses is out of date" % n)
     if not quick:
         _, _, vecs3, races3 = model(ctx, 3, "TriplePlan", devs)
         r = vlib.run_tlc(ctx, "MCLazyBind", cfg(2, [], "SmallPlan", "TypeOK", spec="MCFairSpec", props="PROPERTIES MCTermination"), timeout=900)
